@@ -72,6 +72,7 @@ var defaultAllowedFns = []string{
 	"(net/textproto.MIMEHeader).Get", "(net/textproto.MIMEHeader).Set", "(net/textproto.MIMEHeader).Add", "(net/textproto.MIMEHeader).Del", "(net/textproto.MIMEHeader).Values",
 	"(*io.LimitedReader).Read",
 	"(*net/url.URL).Port", "(*net/url.URL).Hostname", "net/url.splitHostPort", "net/url.validOptionalPort",
+	"(net.IP).To4", "(net.IP).To16", "net.isZeros",
 }
 
 // model redirects: real callee -> harness function (if the harness defines it)
@@ -112,7 +113,6 @@ var defaultRedirects = map[string]string{
 	"(*crypto/tls.Conn).SetReadDeadline":         "vfTLSSetReadDeadline",
 	"(*crypto/tls.Conn).SetWriteDeadline":        "vfTLSSetWriteDeadline",
 	"(*crypto/tls.Config).Clone":                 "vfTLSConfigClone",
-	"golang.org/x/net/proxy.FromURL":             "vfProxyFromURL",
 	"io.NopCloser":                               "vfNopCloser",
 	"bytes.NewReader":                            "",
 	"(*net.Dialer).DialContext":                  "vfNetDialerDialContext",
